@@ -1,5 +1,6 @@
 // Kani harnesses for cascette-client-storage.
 #![allow(dead_code, unused_imports, static_mut_refs)]
+#![cfg_attr(kani, feature(allocator_api))]
 
 #[cfg(kani)]
 #[path = "../../common/uf.rs"]
